@@ -64,7 +64,9 @@ func ScaleProfiles(profiles []*profile.Profile) error {
 	for _, p := range profiles {
 		if p.PeriodType != nil && periodType != nil {
 			period, _ := Scale(p.Period, p.PeriodType.Unit, periodType.Unit)
-			p.Period, p.PeriodType.Unit = int64(period), periodType.Unit
+			// Round like ScaleN does for the sample values: the conversion
+			// ratio is a float and may fall just short of the exact factor.
+			p.Period, p.PeriodType.Unit = int64(math.Round(period)), periodType.Unit
 		}
 		ratios := make([]float64, len(p.SampleType))
 		for i, st := range p.SampleType {
